@@ -276,7 +276,13 @@ fn dryoc_mlock(data: &[u8]) -> Result<(), std::io::Error> {
         let ret = unsafe { c_mlock(data.as_ptr() as *const c_void, data.len()) };
         match ret {
             0 => Ok(()),
-            _ => Err(std::io::Error::last_os_error()),
+            _ => {
+                let err = std::io::Error::last_os_error();
+                // a failed mlock can still leave the range marked as locked (e.g. when
+                // the pages can't be populated), so make sure nothing stays behind
+                unsafe { libc::munlock(data.as_ptr() as *const c_void, data.len()) };
+                Err(err)
+            }
         }
     }
     #[cfg(windows)]
